@@ -69,6 +69,18 @@ package node
 //@     || (bcop(i) == bytecode.MOV && (fetchable(bck(i, 0), bca(i, 0), nds) || bck(i, 0) == bytecode.AddrTmp)
 //@         && (bck(i, 1) == bytecode.AddrLcl || bck(i, 1) == bytecode.AddrTmp || (bck(i, 1) == bytecode.AddrGbl && fetchable(bck(i, 1), bca(i, 1), nds))))
 //
+// Temp-register discipline (C12/C01): the VM has one accumulator. An instruction writes it when it is
+// one of the accumulating operators or a MOV into it. (YIELD and CALL also change it at run time; they
+// are what HasCall and the statement/expression split of the grammar are for.) fbody marks code
+// addresses inside the body of a function literal: such code is emitted inline but runs only when
+// the function is called, with an accumulator of its own use.
+//@ fun writesTmp(i bytecode.Type) bool := bcop(i) == bytecode.ADDTMP || bcop(i) == bytecode.SUBTMP || bcop(i) == bytecode.MULTMP || bcop(i) == bytecode.DIVTMP || bcop(i) == bytecode.MODTMP
+//@     || bcop(i) == bytecode.ANDTMP || bcop(i) == bytecode.ORTMP || bcop(i) == bytecode.LTTMP || bcop(i) == bytecode.GTTMP || bcop(i) == bytecode.LETMP || bcop(i) == bytecode.GETMP
+//@     || bcop(i) == bytecode.EQTMP || bcop(i) == bytecode.NETMP || bcop(i) == bytecode.LSHTMP || bcop(i) == bytecode.RSHTMP || bcop(i) == bytecode.NOTTMP || bcop(i) == bytecode.FLIPTMP || bcop(i) == bytecode.LENTMP
+//@     || (bcop(i) == bytecode.MOV && bck(i, 1) == bytecode.AddrTmp)
+//@ ghost fbody(k int) bool
+//@ pred tmpUntouched(cr compResult) bool := forall i :: old(len(*cr.CS)) <= i && i < len(*cr.CS) ==> !writesTmp((*cr.CS)[i]) || fbody(i)
+//
 // An instruction stays well-formed when the data segment grows.
 //@ lemma wf_mono [C05,C12] auto
 //@   vars x bytecode.Type, n1 int, n2 int
@@ -105,6 +117,7 @@ package node
 //@   modifies *cr.CS, allelems(*cr.CS), *cr.DS, allelems(*cr.DS), mapof(*cr.Dbg)
 //@   ensures[K2_code]  csKept(cr) && csNewWF(cr)
 //@   ensures[K2_data]  dsKept(cr) && crOK(cr)
+//@   ensures[K2_notmp] fl.Data().ForbidTemp ==> tmpUntouched(cr)   // a caller that holds a value in the accumulator forbids its use: the code emitted for the operand must not write it
 //@   ensures[K1_desc]  descOnly(result, srcsel) && operandOK(result, srcsel, len(*cr.DS)) && bck(result, srcsel) != bytecode.AddrImm
 //@   ensures[K1_expr]  isExpr(self) ==> bck(result, srcsel) != bytecode.AddrInv
 //@   ensures[K1_inv]   bck(result, srcsel) == bytecode.AddrInv ==> !isExpr(self) && (fl.Data().Discard || fl.Data().Returning || fl.Data().InFunc)
@@ -217,11 +230,12 @@ package node
 // Array literal: the constant prefix goes to the data segment as one array; the remaining elements are
 // appended one by one at run time (ARR), each compiled as an ordinary operand.
 //@ pred emitInv(cr compResult) bool := crOK(cr) && csKept(cr) && csNewWF(cr) && dsKept(cr)
+//@ pred emitInvT(cr compResult, forbid bool) bool := emitInv(cr) && (forbid ==> tmpUntouched(cr))
 //@ func (List).byteCode [C05,C12] implements ByteCoder.byteCode
 //@   assumes[unfold] forall k :: 0 <= k && k < len(l.Elems) ==> exprOK(l.Elems[k])
 //@   loop 0 invariant[prefix] 0 <= i && i <= len(l.Elems) && fresh(ary) && crOK(cr)
 //@       && same(*cr.CS, old(*cr.CS)) && same(*cr.DS, old(*cr.DS)) && csKept(cr) && dsKept(cr)
-//@   loop 1 invariant[rest] -1 <= rangeindex && 0 <= i && i < len(l.Elems) && emitInv(cr)
+//@   loop 1 invariant[rest] -1 <= rangeindex && 0 <= i && i < len(l.Elems) && emitInvT(cr, fl.Data().ForbidTemp)
 //
 //@ type Namer.Name [C05,C12] pure trusted
 //@   params self
@@ -229,12 +243,13 @@ package node
 //@   callers[range;C15] 0 <= node && node < 4294967296 && 0 <= paramCnt && paramCnt < 65536 && 0 <= localCnt && localCnt < 65536
 //
 //@ func (Function).byteCode [C05,C12] implements ByteCoder.byteCode
+//@   assumes[body_region] forall k :: k >= len(*cr.CS) ==> fbody(k)   // marking: what a function literal emits is its body (plus the jump over it and the FUNC instruction, which do not write the accumulator)
 //@   assumes[unfold] wfAST(f.Body)
 //@ func (Call).byteCode [C05,C12,C19] implements ByteCoder.byteCode
 //@   ensures[call_site_recorded;C19] len(*cr.CS) >= 1 && bcop((*cr.CS)[len(*cr.CS)-1]) == bytecode.CALL && bca((*cr.CS)[len(*cr.CS)-1], 1) == len(c.Arguments.Elems)
 //@       && mapdom(*cr.Dbg, len(*cr.CS)-1) && (*cr.Dbg)[len(*cr.CS)-1].ArgCnt == len(c.Arguments.Elems)   // C19: the report finds the callee's name and argument count under the return address the VM saves (the address of the CALL)
 //@   assumes[unfold] isNamer(c.Name) && wfAST(c.Name) && (forall k :: 0 <= k && k < len(c.Arguments.Elems) ==> exprOK(c.Arguments.Elems[k]))
-//@   loop 0 invariant[args] -1 <= rangeindex && emitInv(cr)
+//@   loop 0 invariant[args] -1 <= rangeindex && emitInvT(cr, fl.Data().ForbidTemp)
 //@ pred isIntOne(n Type) bool := dyntype(n) == typeid[Int]() && n.(Int) == 1
 //@ func (Assign).byteCode [C05,C12,C04,C11] implements ByteCoder.byteCode
 //@   atcall bytecode.New(bytecode.INC) with (callee_op bytecode.OpCode) requires[inc_only_for_self_plus_one;C12,C01,C04,C11] dyntype(a.Value) == typeid[BinOp]() && a.Value.(BinOp).Op == "+"
@@ -261,7 +276,7 @@ package node
 //@ func (Block).byteCode [C05,C12,C09] implements ByteCoder.byteCode
 //@   assumes[unfold] len(b.Body) >= 1 && (forall k :: 0 <= k && k < len(b.Body) ==> wfAST(b.Body[k]))
 //@   requires[sel01] srcsel <= 1
-//@   loop 0 invariant[stmts] -1 <= rangeindex && rangeindex < len(b.Body) && emitInv(cr)
+//@   loop 0 invariant[stmts] -1 <= rangeindex && rangeindex < len(b.Body) && emitInvT(cr, fl.Data().ForbidTemp)
 // C09: a statement that is not the last of its block leaves nothing behind: its value is either not
 // produced on the operand stack or popped at once.
 //@   loop 0 invariant[mid_results_dropped] (0 <= rangeindex && rangeindex < len(b.Body) - 1) ==> bck(instr, srcsel) != bytecode.AddrStck
@@ -272,6 +287,7 @@ package node
 // condition emits the code of a condition followed by its (still unpatched) conditional jump and
 // returns the jump's address; field 1 of the jump is zero, so the target can be OR-ed in later.
 //@ func condition [C05,C12]
+//@   ensures[K2_notmp] fl.Data().ForbidTemp ==> tmpUntouched(cr)
 //@   requires[sel] srcsel == 0
 //@   requires[ast] exprOK(condition) && fl.Data().OpDepth == 0
 //@   assumes[unfold] dyntype(condition) == typeid[UnOp]() ==> exprOK(condition.(UnOp).Target)
@@ -311,12 +327,12 @@ package node
 //@       && (forall k :: 0 <= k && k < len(f.Iterators.Elems) ==> exprOK(f.Iterators.Elems[k]))
 //@       && (forall k :: 0 <= k && k < len(f.VarRefs.Elems) ==> varRefOK(f.VarRefs.Elems[k]))
 //@   atcall f.Body.byteCode with (callee_fl bc.Pass) requires[outer_lo_inherited;C09,C02] fl.Data().InFor ==> callee_fl.Data().CtxLo == fl.Data().CtxLo
-//@   loop 0 invariant[iters] -1 <= rangeindex && rangeindex < len(f.Iterators.Elems) && emitInv(cr) && fresh(jmpAddrs) && old(len(*cr.CS)) <= ccontAddr && ccontAddr <= len(*cr.CS)
+//@   loop 0 invariant[iters] -1 <= rangeindex && rangeindex < len(f.Iterators.Elems) && emitInvT(cr, fl.Data().ForbidTemp) && fresh(jmpAddrs) && old(len(*cr.CS)) <= ccontAddr && ccontAddr <= len(*cr.CS)
 //@       && (rangeindex >= 0 ==> ccontAddr < len(*cr.CS) && bcop((*cr.CS)[ccontAddr]) == bytecode.CCONT)
 //@       && (forall j :: 0 <= j && j < len(jmpAddrs) ==> old(len(*cr.CS)) <= jmpAddrs[j] && jmpAddrs[j] < len(*cr.CS) && bcop((*cr.CS)[jmpAddrs[j]]) == bytecode.JMP)
-//@   loop 1 invariant[vars] -1 <= rangeindex__2 && rangeindex__2 < len(f.VarRefs.Elems) && emitInv(cr) && old(len(*cr.CS)) <= ccontAddr && ccontAddr < len(*cr.CS) && bcop((*cr.CS)[ccontAddr]) == bytecode.CCONT
+//@   loop 1 invariant[vars] -1 <= rangeindex__2 && rangeindex__2 < len(f.VarRefs.Elems) && emitInvT(cr, fl.Data().ForbidTemp) && old(len(*cr.CS)) <= ccontAddr && ccontAddr < len(*cr.CS) && bcop((*cr.CS)[ccontAddr]) == bytecode.CCONT
 //@       && (forall j :: 0 <= j && j < len(jmpAddrs) ==> old(len(*cr.CS)) <= jmpAddrs[j] && jmpAddrs[j] < len(*cr.CS) && bcop((*cr.CS)[jmpAddrs[j]]) == bytecode.JMP)
-//@   loop 2 invariant[patch] -1 <= rangeindex__3 && rangeindex__3 < len(jmpAddrs) && emitInv(cr) && old(len(*cr.CS)) <= ccontAddr && ccontAddr < len(*cr.CS) && bcop((*cr.CS)[ccontAddr]) == bytecode.CCONT
+//@   loop 2 invariant[patch] -1 <= rangeindex__3 && rangeindex__3 < len(jmpAddrs) && emitInvT(cr, fl.Data().ForbidTemp) && old(len(*cr.CS)) <= ccontAddr && ccontAddr < len(*cr.CS) && bcop((*cr.CS)[ccontAddr]) == bytecode.CCONT
 //@       && (forall j :: 0 <= j && j < len(jmpAddrs) ==> old(len(*cr.CS)) <= jmpAddrs[j] && jmpAddrs[j] < len(*cr.CS) && bcop((*cr.CS)[jmpAddrs[j]]) == bytecode.JMP)
 //
 //@ pred whileOK(w While) bool := exprOK(w.Condition) && wfAST(w.Body) && (dyntype(w.Condition) == typeid[UnOp]() ==> exprOK(w.Condition.(UnOp).Target))
@@ -324,6 +340,7 @@ package node
 //@   assumes[unfold] whileOK(w)
 //@   ensures[cond_tested;C12,C09] exists k :: old(len(*cr.CS)) <= k && k < len(*cr.CS) && isCondJump((*cr.CS)[k])
 //@ func discardingWhile [C05,C12,C09]
+//@   ensures[K2_notmp] fl.Data().ForbidTemp ==> tmpUntouched(cr)
 //@   atcall condition(w.Condition #2 with (callee_falsey bool) requires[iteration_value_dropped;C09] body.Src0() == bytecode.AddrStck ==> len(*cr.CS) >= 1 && bcop((*cr.CS)[len(*cr.CS)-1]) == bytecode.POP   // C09: a discarded loop body leaves nothing on the stack when the next iteration starts
 //@   atcall condition(w.Condition #1 with (callee_falsey bool) requires[entry_test_skips_loop_when_false;C12,C01] callee_falsey
 //@   atcall condition(w.Condition #2 with (callee_falsey bool) requires[back_jump_when_true;C12,C01] !callee_falsey
@@ -337,6 +354,7 @@ package node
 //@   ensures[K1_desc] descOnly(result, srcsel) && bck(result, srcsel) == bytecode.AddrInv
 //@   ensures[cond_tested;C12,C09] exists k :: old(len(*cr.CS)) <= k && k < len(*cr.CS) && isCondJump((*cr.CS)[k])
 //@ func pushingWhile [C05,C12]
+//@   ensures[K2_notmp] fl.Data().ForbidTemp ==> tmpUntouched(cr)
 //@   atcall condition(w.Condition #1 with (callee_falsey bool) requires[entry_test_skips_loop_when_false;C12,C01] callee_falsey
 //@   atcall condition(w.Condition #2 with (callee_falsey bool) requires[back_jump_when_true;C12,C01] !callee_falsey
 //@   requires[sel] 0 <= srcsel && srcsel <= 2
